@@ -21,17 +21,18 @@ type TfOp struct {
 
 // TfCase is one line of specs/TransformGen.tla.
 type TfCase struct {
-	Kind   string        `json:"kind"`
-	G      []model.Value `json:"g"`
-	Sel    SelAST        `json:"sel"`
-	Path   [][]int       `json:"path"`
-	Op     TfOp          `json:"op"`
-	Cp     bool          `json:"cp"`
-	Path2  [][]int       `json:"path2"`
-	Op2    TfOp          `json:"op2"`
-	Ok     bool          `json:"ok"`
-	Result model.Value   `json:"result"` // expanded tree
-	Seen   model.Value   `json:"seen"`   // what the callback must be shown (expanded)
+	Kind    string        `json:"kind"`
+	G       []model.Value `json:"g"`
+	Sel     SelAST        `json:"sel"`
+	Path    [][]int       `json:"path"`
+	Op      TfOp          `json:"op"`
+	Cp      bool          `json:"cp"`
+	Path2   [][]int       `json:"path2"`
+	Op2     TfOp          `json:"op2"`
+	Ok      bool          `json:"ok"`
+	Result  model.Value   `json:"result"`  // expanded tree
+	Result2 model.Value   `json:"result2"` // walk cases: what Transform!WT2 prescribes for the copy callback
+	Seen    model.Value   `json:"seen"`    // what the callback must be shown (expanded)
 }
 
 // expandReal reads a real node into an expanded tree: link nodes get the loaded target as child.
@@ -183,8 +184,35 @@ func buildPlain(v model.Value) datamodel.Node {
 	return n
 }
 
-// ReplayTransform runs one focused / sequential / walking transform.
+// ReplayTransform runs one focused / sequential / walking transform.  Focused transforms run a second time under another
+// configuration of the link system: a NodeReifier that changes what loaded blocks LOOK like (addMarkEntry).  A transform
+// rewrites what is STORED: the result must be the same (a reified view written back would not reproduce the graph).
 func ReplayTransform(cs *TfCase) (*run.Finding, int) {
+	f, n := replayTransform(cs, false, false)
+	if f != nil {
+		return f, n
+	}
+	if cs.Kind == "walk" {
+		// Walking transforms run a second time with another callback (Transform!WT2): integers become "X" and every
+		// container is answered with a fresh COPY of itself -- a replacement, beneath which the walk does not go on.
+		if cs.Result2.K == "" {
+			return nil, n
+		}
+		f2, n2 := replayTransform(cs, false, true)
+		return f2, n + n2
+	}
+	f2, n2 := replayTransform(cs, true, false)
+	if f2 != nil {
+		f2.Detail = "link system with a NodeReifier that adds an entry to every loaded map: " + f2.Detail
+	}
+	return f2, n + n2
+}
+
+func replayTransform(cs *TfCase, reify bool, copyCallback bool) (*run.Finding, int) {
+	wantResult := cs.Result
+	if copyCallback {
+		wantResult = cs.Result2
+	}
 	checks := 0
 	fail := func(target, rule, class, detail string) *run.Finding {
 		return &run.Finding{Step: -1, Target: target, Rule: rule, Class: class, Detail: detail}
@@ -197,6 +225,9 @@ func ReplayTransform(cs *TfCase) (*run.Finding, int) {
 		LinkTargetNodePrototypeChooser: func(datamodel.Link, linking.LinkContext) (datamodel.NodePrototype, error) {
 			return basicnode.Prototype.Any, nil
 		}}
+	if reify {
+		cfg.LinkSystem.NodeReifier = addMarkEntry // (cfg holds its own copy of the link system; gr.LS stays plain for reading back)
+	}
 	origExp, err := expandReal(&gr.LS, gr.Root, gr.BlockOf)
 	if err != nil {
 		return fail("harness", "expand", "error", err.Error()), 0
@@ -243,6 +274,9 @@ func ReplayTransform(cs *TfCase) (*run.Finding, int) {
 		case "walk":
 			target = "traversal.WalkTransforming"
 			what = "selector-driven transform (ints become \"X\")"
+			if copyCallback {
+				what = "selector-driven transform (ints become \"X\", containers are answered with a fresh copy of themselves)"
+			}
 			var sel selector.Selector
 			sel, terr = selector.CompileSelector(SelectorDMT(cs.Sel, gr.Links))
 			if terr != nil {
@@ -251,6 +285,13 @@ func ReplayTransform(cs *TfCase) (*run.Finding, int) {
 			result, terr = traversal.Progress{Cfg: cfg}.WalkTransforming(gr.Root, sel, func(p traversal.Progress, n datamodel.Node) (datamodel.Node, error) {
 				if n.Kind() == datamodel.Kind_Int {
 					return basicnode.NewString("X"), nil
+				}
+				if copyCallback && (n.Kind() == datamodel.Kind_Map || n.Kind() == datamodel.Kind_List) {
+					nb := basicnode.Prototype.Any.NewBuilder()
+					if err := datamodel.Copy(n, nb); err != nil {
+						return nil, err
+					}
+					return nb.Build(), nil
 				}
 				return n, nil
 			})
@@ -292,14 +333,14 @@ func ReplayTransform(cs *TfCase) (*run.Finding, int) {
 	if err != nil {
 		return fail(target, rule, "unreadable-result", what+": "+err.Error()), checks
 	}
-	if !equalExpanded(resExp, cs.Result, false) {
+	if !equalExpanded(resExp, wantResult, false) {
 		class := "different-tree"
-		if eqExp(inlineLinks(resExp), inlineLinks(cs.Result), false, true) {
+		if eqExp(inlineLinks(resExp), inlineLinks(wantResult), false, true) {
 			// the content is right, but links the transform went through were replaced by the loaded
 			// block's content instead of being stored again and re-linked
 			class = "link-inlined"
 		}
-		return fail(target, rule, class, fmt.Sprintf("%s: result %v, specification %v", what, resExp, cs.Result)), checks
+		return fail(target, rule, class, fmt.Sprintf("%s: result %v, specification %v", what, resExp, wantResult)), checks
 	}
 	checks++
 	if m := untouchedLinksKept(origExp, resExp, ""); m != "" && cs.Kind != "focus2" {
